@@ -427,8 +427,42 @@ def mutation_nontrivial(case):
     return False
 
 
+TWINS = [("<<1, 1.0>>", "<<1.0, 1>>"), ("<<0.0, -0.0>>", "<<-0.0, 0.0>>"),
+         ("set([2, 2.0])", "set([2.0, 2])"), ("<<[1]>> + <<[1.0]>>",
+                                             "<<[1.0]>> + <<[1]>>"),
+         ("<<<1 => 'a'>>> !> put(1.0, 'a')", "<<<1.0 => 'a'>>> !> put(1, 'a')")]
+
+
+def twins_prop(a, b):
+    """Equal collections built in a different order from an int and the
+    decimal equal to it: one value, so one text."""
+    src = f"def a = {a}; def b = {b}; [a == b, string(a), string(b)]"
+    out = cklrun.run(src, budget=20)
+    if out[0] != "value":
+        return Finding(f"C08|twins|{out[0]}", f"{src} -> {cklrun.short(out)}")
+    eq, ta, tb = cklrun.to_model(out[1])
+    if eq is True and ta != tb:
+        return Finding("C08|equal-collections-render-differently|int-and-"
+                       "equal-decimal",
+                       f"{a} == {b} is TRUE, but they render {ta!r} and "
+                       f"{tb!r}: the collection keeps whichever of two equal "
+                       f"numbers came first")
+    return None
+
+
+def part_twins(part):
+    for a, b in TWINS:
+        part.count()
+        part.distinct()
+        part.cls("numeric-twins", a)
+        part.collect(twins_prop(a, b), {"kind": "twins", "a": a, "b": b})
+    part.exhaustive = True
+
+
 def prop(case):
     k = case["kind"]
+    if k == "twins":
+        return twins_prop(case["a"], case["b"])
     if k == "value":
         v = dec(case["value"])
         vs = [dec(x) for x in case.get("variants", [])]
@@ -574,14 +608,14 @@ def parts(tier, seed):
         ps = [(f"values-{i}", part_values, {"n": 4000}) for i in range(6)]
         ps += [(f"scalars-{i}", part_scalars, {"n": 8000}) for i in range(4)]
         ps += [(f"orders-{i}", part_all_orders, {"n": 150}) for i in range(2)]
-        ps += [("numexprs", part_numexprs, {})]
+        ps += [("numexprs", part_numexprs, {}), ("twins", part_twins, {})]
         ps += [(f"mutations-{i}", part_mutations, {"n": 1500})
                for i in range(3)]
     else:
         ps = [(f"values-{i}", part_values, {"n": 40000}) for i in range(8)]
         ps += [(f"scalars-{i}", part_scalars, {"n": 60000}) for i in range(4)]
         ps += [(f"orders-{i}", part_all_orders, {"n": 2500}) for i in range(3)]
-        ps += [("numexprs", part_numexprs, {})]
+        ps += [("numexprs", part_numexprs, {}), ("twins", part_twins, {})]
         ps += [(f"mutations-{i}", part_mutations, {"n": 25000})
                for i in range(4)]
     return ps
